@@ -1,5 +1,6 @@
 import Capella.Lemmas.XmlEdit
 import Capella.Lemmas.XmlCanon
+import Capella.Lemmas.XmlBuild
 import Capella.Model.XmlNsUpdate
 /-! `update_namespaces` (C01/C02): what the recomputed namespace map contains, idempotence, and that a
 Capella-shaped document stays Capella-shaped. -/
@@ -586,6 +587,23 @@ theorem pluginUri_ok {vps : List (Str × Str)} {p : Plugin} {u : Str} (hp : p.ok
 
 /-! ### a Capella-shaped document stays Capella-shaped -/
 
+theorem commentOk_dropTail {c : Comment} (h : commentOk c = true) : dropTail c = c := by
+  cases c with
+  | mk text tail =>
+    simp only [commentOk, Bool.and_eq_true, Option.isNone_iff_eq_none] at h
+    simp only [dropTail]
+    rw [h.1.1]
+
+theorem map_dropTail_of_ok {cs : List Comment} (h : ∀ c ∈ cs, c.tail = none) : cs.map dropTail = cs := by
+  induction cs with
+  | nil => rfl
+  | cons c cs ih =>
+    simp only [List.map_cons]
+    rw [ih (fun x hx => h x (List.mem_cons_of_mem _ hx))]
+    have := h c List.mem_cons_self
+    cases c with
+    | mk text tail => simp only at this; subst this; rfl
+
 theorem nameOk_ne_nil {s : Str} (h : nameOk s = true) : s ≠ [] := by
   intro hs; subst hs; simp [nameOk, nameStartOk] at h
 
@@ -697,7 +715,12 @@ theorem updateNs_wf (t : List Plugin) (vps : List (Str × Str)) (ht : TableOk t)
           simp only [replaceRoot, Elem.nsdecls] at huniq
           simp only [wfDoc, Bool.and_eq_true] at hwf ⊢
           obtain ⟨⟨hroot, hpre⟩, hpost⟩ := hwf
-          refine ⟨⟨?_, hpre⟩, by simpa [List.all_reverse] using hpost⟩
+          have hpre' : (pre.map dropTail).all commentOk = true := by
+            rw [map_dropTail_of_ok (fun c hc => commentOk_tail (List.all_eq_true.mp hpre c hc))]; exact hpre
+          have hpost' : (post.reverse.map dropTail).all commentOk = true := by
+            rw [map_dropTail_of_ok (fun c hc => commentOk_tail (List.all_eq_true.mp hpost c (List.mem_reverse.mp hc)))]
+            simpa [List.all_reverse] using hpost
+          refine ⟨⟨?_, hpre'⟩, hpost'⟩
           rw [wfElem_iff] at hroot
           obtain ⟨r1, r2, r3, r4, _, _, r7⟩ := hroot
           simp only [scope_nil_left] at r2 r3 r7
@@ -734,7 +757,7 @@ theorem updateNs_shape (t : List Plugin) (vps : List (Str × Str)) (d d' : Doc)
       ((dictEq d.root.nsdecls n = true ∧ d' = d) ∨
        (dictEq d.root.nsdecls n = false ∧ noDeclsL d.root.kids = true ∧
          urisCovered ((sortKV n).map (·.2)) d.root = true ∧
-         d' = ⟨d.pre, replaceRoot n d.root, d.post.reverse⟩)) := by
+         d' = ⟨d.pre.map dropTail, replaceRoot n d.root, d.post.reverse.map dropTail⟩)) := by
   unfold updateNs at h
   cases hn : newNsmap t vps d.root with
   | error e => rw [hn] at h; simp at h
